@@ -62,7 +62,7 @@ def make_body(kind, name, quat):
     return body
 
 
-def _ob(kind, name, quat, tier):
+def _ob(kind, name, quat, tier, small=False):
     oname = "C02/%s.%s.%s" % (kind, name, quat)
     from coxeter.shapes import Polyhedron, ConvexPolygon
     from coxeter.extern.polytri import polytri
@@ -75,15 +75,20 @@ def _ob(kind, name, quat, tier):
                              polytri.triangulate, polytri.any_point_in_triangle, polytri.calculate_normal_3d, translate_inertia_tensor])
 
     def pre(V):
+        if small:
+            # small solids near the origin: absolute tolerances in the triangulation code become branch conditions
+            return [V["s"] >= F(1, 10**6), V["s"] <= F(1, 4)] + [c for k in ("tx", "ty", "tz") for c in (V[k] >= -V["s"] * 10, V[k] <= V["s"] * 10)]
         return [V["s"] >= F(1, 4), V["s"] <= 100]
 
-    first = dict(s=F(3, 2), tx=F(7, 3), ty=F(-5, 2), tz=F(11, 4))
+    first = dict(s=F(3, 2), tx=F(7, 3), ty=F(-5, 2), tz=F(11, 4)) if not small else dict(s=F(1, 8), tx=F(1, 3), ty=F(-1, 2), tz=F(1, 4))
     base, faces = _shape(kind, name)
+    if small:
+        oname = oname + ".small"
     return (oname, lambda: run_e2(oname, ["s", "tx", "ty", "tz"], make_body(kind, name, quat), positive=["s"], pre=pre, functions=fns, first_sample=first,
                                   max_paths=(2 if tier == "quick" else 8), budget_s=(240 if tier == "quick" else 1500), natoms=120,
                                   stubs=["rowan.mapping.kabsch -> contract", "ConvexHull(2-D) -> exact gift wrapping"],
-                                  bounds="solid %s (%d vertices, %d faces), free scale s in [1/4,100], free translation, rotation %s; path budget"
-                                         % (name, len(base), len(faces), quat)))
+                                  bounds="solid %s (%d vertices, %d faces), free scale s in %s, free translation%s, rotation %s; path budget"
+                                         % (name, len(base), len(faces), "[1e-6,1/4]" if small else "[1/4,100]", " within 10 s" if small else "", quat)))
 
 
 def obligations(tier, seed):
@@ -97,4 +102,4 @@ def obligations(tier, seed):
         for n in SH.CONVEX:
             cfgs.append(("convex", n, "r2"))
         cfgs = sorted(set(cfgs))
-    return [_ob(*c, tier) for c in cfgs]
+    return [_ob(*c, tier) for c in cfgs] + [_ob("nonconvex", "L_prism", "id", tier, small=True), _ob("convex", "skew", "id", tier, small=True)]
